@@ -463,4 +463,7 @@ func runC12(c *Ctx) {
 			}
 		}
 	}
+	// what the checker accepts with a built-in's static type must find the built-in at run time, also when a
+	// capture carries the same name (shared with C09: accepted programs, every operator, must evaluate)
+	runC09Shadow(c)
 }
